@@ -72,6 +72,15 @@ ALL_KEYWORDS = sorted({k for _, ks in SINGLE_TYPE.values() for k in ks} |
                       {'none', 'auto', 'normal', 'block', 'left', 'solid', 'bold', 'red', 'serif', 'x', 'foo'})
 
 
+# @font-face descriptors whose value is a keyword list (CSS3 Fonts, as far as cssutils registers them)
+FONTFACE_KEYWORDS = {
+    'font-style': ['normal', 'italic', 'oblique'],
+    'font-weight': ['normal', 'bold', '100', '200', '300', '400', '500', '600', '700', '800', '900'],
+    'font-stretch': ['ultra-condensed', 'extra-condensed', 'condensed', 'semi-condensed', 'semi-expanded',
+                     'expanded', 'extra-expanded', 'ultra-expanded'],
+}
+
+
 def impl():
     import logging
     import cssutils
@@ -394,6 +403,7 @@ class C13(Check):
             self.oracle_spelling_roundtrip_paths(ctx)
             self.oracle_grammar(ctx)
             self.oracle_annotates(ctx)
+            self.corr_valid_only(ctx)
             self.oracle_unicode_fold(ctx)
         finally:
             self.P._defaultProfiles = saved_default
@@ -458,6 +468,8 @@ class C13(Check):
     def compare(self, ctx, what, lines, exp):
         out = self.drive(ctx, lines) if ctx.model_ok and lines else [None] * len(lines)
         for l, e, o in zip(lines, exp, out):
+            if o is not None and l.startswith('vwp ') and o.startswith('ok '):
+                o = ' '.join(o.split()[:3])
             if o is not None and o != e[-1]:
                 ctx.disagree(what, {'request': l, 'case': [repr(x) for x in e[:-1]]}, e[-1], o)
 
@@ -528,7 +540,7 @@ class C13(Check):
             try:
                 with time_limit(10):
                     a, b, names = P.validateWithProfile(name, v, ps)
-                got = 'ok %d %d %s' % (a, b, lst(names))
+                got = 'ok %d %d' % (a, b)       # the list of profile names (log text) is not compared
             except KeyError as e:
                 got = 'KeyError %s' % enc(e.args[0])
             with time_limit(10):
@@ -598,6 +610,15 @@ class C13(Check):
             for r in rule.cssRules:
                 out += self.all_props(r, ctxpath + (rule.typeString,))
         return out
+
+    def fontface_member(self, name, value):
+        """independent (CSS3 Fonts) reading: the six descriptors cssutils registers; keyword descriptors take
+        exactly their keywords (no `inherit`, no relative weights); the others are not judged here (True)"""
+        if name not in ('font-family', 'src', 'font-style', 'font-weight', 'font-stretch', 'unicode-range'):
+            return False
+        if name in FONTFACE_KEYWORDS:
+            return self.fold(value) in FONTFACE_KEYWORDS[name]
+        return True
 
     # -- sheets ------------------------------------------------------------------------------------
     def gen_decl(self, rng, fontface=False):
@@ -704,6 +725,16 @@ class C13(Check):
                 if p.name not in P.knownNames and v:
                     ctx.violate('a property with an unknown name is never valid',
                                 {'css': css, 'property': p.name, 'value': p.value}, {'valid': True})
+                if p.priority not in ('', 'important') and v:
+                    ctx.violate('a declaration whose priority is not !important is never valid',
+                                {'css': css, 'property': p.name, 'priority': p.priority}, {'valid': True})
+                if ff and v and not self.fontface_member(p.name, p.value):
+                    ctx.violate('inside @font-face only font descriptors with descriptor values are valid',
+                                {'css': css, 'property': p.name, 'value': p.value}, {'valid': True})
+                if ff and not v and p.priority in ('', 'important') and self.fontface_member(p.name, p.value) \
+                        and self.fold(p.value) in FONTFACE_KEYWORDS.get(p.name, ()):
+                    ctx.violate('inside @font-face the descriptor keywords are valid',
+                                {'css': css, 'property': p.name, 'value': p.value}, {'valid': False})
             # oracle: conjunction, as the property text reads it
             if bool(sv) != allvalid:
                 known = self.conj_region(s, props, pv, sv)
@@ -996,11 +1027,66 @@ class C13(Check):
                         if dflag is not None:
                             st.validating = dflag
                     got = '1' if st.validating else '0'
+                want = sflag if sflag is not None else (dflag if dflag is not None else True)
+                if got != str(int(want)):
+                    ctx.violate('the validating flag is resolved sheet > declaration > default True',
+                                {'sheet_flag': sflag, 'declaration_flag': dflag}, {'validating': got})
                 f = lambda x: 'N' if x is None else str(int(x))     # noqa: E731
                 lines.append('flag %s %s' % (f(sflag), f(dflag)))
                 exp.append((sflag, dflag, got))
                 ctx.case(key=('flag', sflag, dflag), nontrivial=True, kind='flag')
         self.compare(ctx, 'validating flag resolution', lines, exp)
+
+    # -- validOnly: the one documented way in which validation reaches the output ------------------------
+    def corr_valid_only(self, ctx):
+        rng = ctx.sub_rng('validonly')
+        cu = self.cu
+        lines, exp = [], []
+        prefs = cu.ser.prefs
+        for _ in range(ctx.n(300, 6000)):
+            ff = rng.random() < 0.2
+            block = self.gen_block(rng, ff)
+            css = ('@font-face{%s}' if ff else 'a{%s}') % block
+            s = self.parse(css)
+            if not s.cssRules.length or not hasattr(s.cssRules[0], 'style'):
+                continue
+            props = s.cssRules[0].style.getProperties(all=True)
+            valid = [bool(p.valid) for p in props]
+            obs = [(p.name, self.fold(p.value), p.priority) for p in props]
+            try:
+                prefs.validOnly = True
+                with time_limit(10):
+                    text = s.cssText
+            finally:
+                prefs.validOnly = False
+            text = text.decode('utf-8') if isinstance(text, bytes) else text
+            s2 = self.parse(text)
+            kept = []
+            if s2.cssRules.length and hasattr(s2.cssRules[0], 'style'):
+                kept = [(p.name, self.fold(p.value), p.priority) for p in s2.cssRules[0].style.getProperties(all=True)]
+            want = [o for o, v in zip(obs, valid) if v]
+            ctx.case(key=('validonly', css), nontrivial=not all(valid), kind='validOnly:%s' % ('all' if all(valid) else 'some'),
+                     sample={'css': css, 'validOnly_output': text})
+            if kept != want:
+                ctx.violate('with validOnly the output holds exactly the valid declarations',
+                            {'css': css}, {'output': text, 'kept': kept, 'valid_declarations': want})
+            with time_limit(10):
+                plain = s.cssText
+            plain = plain.decode('utf-8') if isinstance(plain, bytes) else plain
+            s3 = self.parse(plain)
+            all3 = []
+            if s3.cssRules.length and hasattr(s3.cssRules[0], 'style'):
+                all3 = [(p.name, self.fold(p.value), p.priority) for p in s3.cssRules[0].style.getProperties(all=True)]
+            if all3 != obs:
+                ctx.violate('without validOnly every stored declaration is written, valid or not',
+                            {'css': css}, {'output': plain, 'written': all3, 'stored': obs})
+            if props:
+                toks = ' '.join(self.decl_token(p) for p in props)
+                lines.append('ser N %d 1 %s' % (ff, toks))
+                exp.append((css, ''.join('1' if v else '0' for v in valid)))
+                lines.append('ser N %d 0 %s' % (ff, toks))
+                exp.append((css, '1' * len(props)))
+        self.compare(ctx, 'validOnly guard of do_Property', lines, exp)
 
     # -- oracle: non-ASCII letters that re.I folds onto ASCII (implementation only) ---------------------
     def oracle_unicode_fold(self, ctx):
